@@ -269,6 +269,18 @@ def shard(tier, seed, idx, n):
     keys = interesting_keys(tier, rng)
     work = 0
     single_ops = [o for o in KEY_OPS if o not in ("get_many", "gets_many", "set_many", "delete_many")]
+    # 0. the very first calls of a fresh process (every shard is one): a caller's slip outside the statement comes first,
+    #    then well-formed calls whose integers equal the slipped value (process-wide memoisation keyed by equality)
+    slips = [("set", ("ok", b"v", False), {}), ("set", ("ok", b"v", True), {"noreply": False}), ("incr", ("ok", True), {}),
+             ("touch", ("ok", False), {}), ("set", ("ok", b"v"), {"flags": True, "noreply": False}), ("cas", ("ok", b"v", True), {"noreply": False}),
+             ("decr", ("ok", False), {}), ("flush_all", (True,), {})]
+    first_plan = [("$unjudged", slips[idx % len(slips)], {}),
+                  ("set", ("k1", b"v"), {"expire": 0, "noreply": False}), ("set", ("k2", b"w"), {"expire": 1, "flags": 1, "noreply": False}),
+                  ("incr", ("k1", 1), {"noreply": False}), ("decr", ("k1", 0), {"noreply": False}), ("touch", ("k1",), {"expire": 1, "noreply": False}),
+                  ("cas", ("k1", b"x", 1), {"expire": 0, "noreply": False}), ("gat", ("k1",), {"expire": 0}), ("set", ("k3", b""), {"noreply": False}),
+                  ("flush_all", (0,), {"noreply": False})]
+    run_sequence(res, "client", [("mc1", 11211)], {}, None, tier, plan=first_plan)
+    res.count("fresh_process_slip_first_sequences")
     # 1. single-key ops x interesting keys x stacks x configs
     for stack, servers in STACKS:
         for cfg in CFGS:
@@ -405,7 +417,14 @@ def seq_plan(stack, cfg, rng, tier):
     for _ in range(rng.randrange(8, 30)):
         c = rng.random()
         tok = rng.choice(toks)
-        if c < 0.2 and isinstance(tok, str) and tok and " " not in tok and len(tok) < 200:
+        if c < 0.06:
+            # a caller's slip that is outside the statement (a bool where an integer belongs, e.g. noreply passed in
+            # expire's position): not judged itself, but it must not change what LATER well-formed calls put on the wire
+            plan.append(("$unjudged", rng.choice([("set", ("ok", b"v", False), {}), ("set", ("ok", b"v", True), {"noreply": False}),
+                                                  ("incr", ("ok", True), {}), ("touch", ("ok", False), {}),
+                                                  ("set", ("ok", b"v"), {"flags": True, "noreply": False}),
+                                                  ("cas", ("ok", b"v", True), {"noreply": False})]), {}))
+        elif c < 0.2 and isinstance(tok, str) and tok and " " not in tok and len(tok) < 200:
             plan.append(("stats", (tok,), {}))            # not judged: its argument is not a key
         elif c < 0.25 and stack == "client":
             plan.append(("cache_memlimit", (rng.choice([64, 128]),), {}))
@@ -439,6 +458,14 @@ def run_sequence(res, stack, servers, cfg, rng, tier, plan=None):
         for i, (op, a, kw) in enumerate(plan):
             if op == "stats":
                 w.call(i, (op, a, kw))
+                continue
+            if op == "$unjudged":
+                w.call(i, a)
+                for srv in w.servers.values():
+                    del srv.malformed[:]          # whatever that call wrote is its own business
+                    for ses in srv.sessions:
+                        ses.buf = b""
+                res.count("unjudged_slips_in_sequences")
                 continue
             before = res.counters.get("violations_seen", 0)
             run_call(res, stack, servers, cfg, op, a, kw, "in-sequence", w=w, callno=i, case=case)
